@@ -12,7 +12,10 @@ def annotate(lines, impl):
     """The number of fixed updates per frame is an oracle input for the model (Events::update gating)."""
     out = []
     for l, blk in zip(lines, impl):
-        if l.startswith("frame"):
+        if l.startswith("emit sei ") or l.startswith("emit sti "):
+            # independent events take the same local routes: the model has one buffer per direction and kind
+            out.append(l.replace("emit sei ", "emit se ", 1).replace("emit sti ", "emit st ", 1))
+        elif l.startswith("frame"):
             fx = [x for x in blk if x.startswith("fixed=")]
             out.append(l + " " + (fx[0] if fx else "fixed=0"))
         else:
@@ -30,5 +33,6 @@ def run_both(lines):
     impl = run_impl(steps)
     model = run_model(annotate(steps, impl))
     # the implementation prints fixed=<n> lines, the model does not
-    impl2 = [[x for x in b if not x.startswith("fixed=")] for b in impl]
+    impl2 = [sorted(x.replace(" SEI:", " SE0:").replace(" STI:", " ST:") for x in b if not x.startswith("fixed=")) for b in impl]
+    model = [sorted(b) for b in model]
     return steps, impl2, model
